@@ -813,6 +813,34 @@ def one_case(rng, tier):
     return "seq %s | %s" % (" ".join(toks), " ".join(steps))
 
 
+CLOSEROOT_CASES = set()
+
+
+def closeroot_case(rng, k):
+    """n-th roots of positive algebraic numbers whose CONJUGATE is close (both roots of a x^2 - b x + c positive, small
+    non-square discriminant): the candidate roots of the n-th root stay unseparated for several refinement rounds of
+    lp_algebraic_number_positive_root, so dyadic_rational_root_approx is called with growing precisions that are not
+    multiples of n (seeded change C07-14); the result is raised to the n-th power again and compared with the operand."""
+    import math
+    while True:
+        a = rng.choice([1, 1, 1, 2, 3, 4])
+        b = rng.randint(5, 60)
+        disc = rng.choice([2, 3, 5, 6, 7, 8, 10, 11, 12, 13, 15, 17, 20, 21, 24, 28, 33, 40])
+        if (b * b - disc) % (4 * a):
+            continue
+        c = (b * b - disc) // (4 * a)
+        if c <= 0 or math.gcd(math.gcd(a, b), c) != 1 or math.isqrt(disc) ** 2 == disc:
+            continue
+        break
+    n = rng.choice([2, 3, 3, 3, 4, 5])
+    idx = k % 2
+    x = "r:%d,%d,%d:%d" % (c, -b, a, idx)
+    steps = ["refine:0"] * rng.choice([0, 0, 1, 3]) + ["root:1:0:%d" % n, "pow:2:1:%d" % n, "cmp:2:0", "sgn:1", "floor:1"]
+    if rng.random() < 0.3:
+        steps += ["root:3:1:2", "pow:4:3:%d" % (2 * n), "cmp:4:0"]
+    return "seq %s | %s" % (x, " ".join(steps))
+
+
 def generate(rng, tier, corpus_only=False):
     n = 640 if tier == "quick" else 8000
     cases = ["seq %s | %s" % (p, " ".join(s)) for (p, s) in COLLAPSE]
@@ -822,6 +850,9 @@ def generate(rng, tier, corpus_only=False):
     for k in range(600 if tier == "quick" else 3000):
         cases.append(signmul_case(rng, k))
         SIGNMUL_CASES.add(cases[-1])
+    for k in range(120 if tier == "quick" else 900):
+        cases.append(closeroot_case(rng, k))
+        CLOSEROOT_CASES.add(cases[-1])
     return cases
 
 
@@ -829,6 +860,8 @@ def tag(case):
     """branch tag: the first step's operation; pools with more than two operands are operation sequences"""
     t = case.split()
     bar = t.index("|")
+    if case in CLOSEROOT_CASES:
+        return "closeroot"
     if case in SIGNMUL_CASES:
         return "signmul-" + [s.split(":")[0] for s in t[bar + 1:] if not s.startswith("refine")][0]
     if bar > 3:
